@@ -22,6 +22,14 @@ const FAILING: &str = "-mmin -5 -user bob";
 const FAIL: usize = 5;
 const SLEEP: usize = 6;
 
+fn short(s: &str) -> String {
+    if s.chars().count() > 70 {
+        format!("{}… ({} bytes)", s.chars().take(50).collect::<String>(), s.len())
+    } else {
+        s.to_string()
+    }
+}
+
 fn now() -> u64 {
     SystemTime::now().duration_since(UNIX_EPOCH).unwrap().as_secs()
 }
@@ -157,6 +165,103 @@ pub fn run(ctx: &Ctx) -> i32 {
             check_history(&h, &first, &mut acc);
         }
     }
+    // parse histories: the answer for a text must not depend on what was parsed before it on the
+    // same thread (inputs: near-identical spellings, deep nestings around any plausible limit,
+    // long formats, errors)
+    let nest = |k: usize| format!("{} -true {}", "( ".repeat(k), ") ".repeat(k));
+    let inputs: Vec<String> = vec![
+        "-name 'a b'".into(),
+        "-name 'a  b'".into(),
+        "-name \"a  b\"".into(),
+        "-name 'a b' ".into(),
+        "-name 'a\tb'".into(),
+        "-printf 'x  y\\n' -fprint 'o  p'".into(),
+        "-printf 'x y\\n' -fprint 'o p'".into(),
+        "-true".into(),
+        "-true -o".into(),
+        "-uid x".into(),
+        nest(8),
+        nest(60),
+        nest(63),
+        nest(64),
+        nest(65),
+        nest(70),
+        nest(128),
+        nest(140),
+        format!("{}-print", "! ".repeat(70)),
+        format!("-printf '{}.'", "%p and a fairly long piece of literal text, ".repeat(3)),
+        format!("-fprintf f '{}.' -fprintf g '{}.'", "%s some text that makes this longer than 48 bytes ", "%s some text that makes this longer than 48 bytes "),
+        "-perm u+rwx,g-w -size +5k -mtime -3".into(),
+        "-threads 4 -name x -depth".into(),
+    ];
+    for (i, j, after, alone) in crate::subject::parse_history_pairs(&inputs) {
+        acc.violate(Violation::new(
+            "C15:parse-result-depends-on-history",
+            format!("parse({:?}) right after parse({:?}) on the same thread gives {after}; on a fresh thread it gives {alone}", short(&inputs[j]), short(&inputs[i])),
+            json!({"kind": "parse-pair", "first": inputs[i], "second": inputs[j]}),
+        ));
+    }
+    acc.states += (inputs.len() * inputs.len()) as u64;
+    acc.transitions += (inputs.len() * inputs.len() * 2) as u64;
+    // repeated refusals must not wear anything out: 200 over-deep inputs, then a shallow one
+    {
+        let deep = nest(150);
+        let shallow = vec![nest(1), nest(30), nest(64)];
+        let res = std::thread::Builder::new()
+            .stack_size(256 << 20)
+            .spawn(move || {
+                let before: Vec<String> = shallow.iter().map(|s| format!("{:?}", crate::subject::parse_spec(s))).collect();
+                for _ in 0..200 {
+                    let _ = crate::subject::parse_spec(&deep);
+                }
+                let after: Vec<String> = shallow.iter().map(|s| format!("{:?}", crate::subject::parse_spec(s))).collect();
+                (before, after)
+            })
+            .unwrap()
+            .join();
+        acc.states += 1;
+        match res {
+            Ok((b, a)) if b == a => {}
+            Ok((b, a)) => {
+                let k = b.iter().zip(a.iter()).position(|(x, y)| x != y).unwrap_or(0);
+                acc.violate(Violation::new(
+                    "C15:parse-result-depends-on-history",
+                    format!("after 200 parses of a 150-fold nested input, a shallow input parses as {} instead of {}", short(&a[k]), short(&b[k])),
+                    json!({"kind": "parse-wear", "n": 200}),
+                ));
+            }
+            Err(_) => acc.violate(Violation::new("C15:call-failed", "the parse-history thread died".to_string(), json!({"kind": "parse-wear", "n": 200}))),
+        }
+    }
+    // the file system is not an input: compiling before and after the named files exist, and
+    // under two spellings of one existing file, must give the same program and table
+    {
+        let dir = speclib::report::root().join("target").join("c15-files").join(format!("{}", std::process::id()));
+        let _ = std::fs::create_dir_all(&dir);
+        let d = dir.to_string_lossy().to_string();
+        let exprs = [
+            format!("-fprint {d}/f -o -fprint {d}/./f -o -fprint0 {d}/link"),
+            format!("-name x -fprintf {d}/f '%p' -o -fprint {d}/sub/../f"),
+        ];
+        let before: Vec<Result<(String, String), String>> = exprs.iter().map(|e| observe(e).map(|o| (o.program, o.table))).collect();
+        let _ = std::fs::write(dir.join("f"), b"x");
+        let _ = std::fs::create_dir_all(dir.join("sub"));
+        #[cfg(unix)]
+        let _ = std::os::unix::fs::symlink(dir.join("f"), dir.join("link"));
+        let after: Vec<Result<(String, String), String>> = exprs.iter().map(|e| observe(e).map(|o| (o.program, o.table))).collect();
+        let _ = std::fs::remove_dir_all(&dir);
+        acc.states += 2;
+        acc.transitions += 4;
+        for (k, (b, a)) in before.iter().zip(after.iter()).enumerate() {
+            if b != a {
+                acc.violate(Violation::new(
+                    "C15:result-depends-on-the-file-system",
+                    format!("compiling {:?} gives a different program or table once the files it names exist: {:?} vs {:?}", exprs[k], b.as_ref().map(|x| &x.1), a.as_ref().map(|x| &x.1)),
+                    json!({"kind": "files", "expr": k}),
+                ));
+            }
+        }
+    }
     // fresh processes
     let nproc = ctx.tier.pick(8, 64);
     let mut dumps: Vec<String> = vec![];
@@ -228,7 +333,7 @@ fn fin(nproc: usize, maxlen: usize) -> Finish {
     Finish {
         level: "model_checking",
         exhaustive: true,
-        rule: "state = history of parse+compile calls in one process over five resource-rich expressions (two with time tests), a compile that fails after a time test was translated, and waits of 1.1 s (so the clock second changes between calls); every call's parse result, program (embedded clock second replaced) and destination table must equal the first result ever obtained for that expression; every embedded second must lie within the clock readings taken around its compile call, also for a call issued after the process has run for more than 2 s; the same five expressions are evaluated in fresh processes and the outputs compared byte-wise; distinct = distinct (expression, program) pairs".into(),
+        rule: "state = history of parse+compile calls in one process over five resource-rich expressions (two with time tests), a compile that fails after a time test was translated, and waits of 1.1 s (so the clock second changes between calls); every call's parse result, program (embedded clock second replaced) and destination table must equal the first result ever obtained for that expression; parsing text j right after text i on a fresh thread must answer as parsing j alone (23 texts: near-identical spellings, nestings of 8..140, long formats, errors; all ordered pairs), also after 200 refused over-deep inputs; compiling expressions that name files must not depend on whether those files (or symbolic links to them) exist; every embedded second must lie within the clock readings taken around its compile call, also for a call issued after the process has run for more than 2 s; the same five expressions are evaluated in fresh processes and the outputs compared byte-wise; distinct = distinct (expression, program) pairs".into(),
         bound: format!("every call history of length 1..{maxlen} over 5 expressions and the failing compile (exhaustive); every history x·wait·y with x in {{time expression, failing compile}}, y a time expression (thorough: all such of length 4-5 with one or two waits); {nproc} fresh processes (the hash-seed dimension cannot be enumerated: it is covered by repetition, see DESIGN.md §1.2)"),
         assumptions: vec!["std HashMap seeds are per process/instance and not injectable: their dimension is sampled by fresh processes and fresh map instances, not enumerated".into()],
         extra: serde_json::Map::new(),
@@ -241,6 +346,13 @@ pub fn replay(w: &Value) -> Vec<Violation> {
         Ok(v) => v,
         Err(e) => return vec![Violation::new("C15:call-failed", e, w.clone())],
     };
+    if w["kind"] == "parse-pair" {
+        let inputs = vec![w["first"].as_str().unwrap_or("").to_string(), w["second"].as_str().unwrap_or("").to_string()];
+        return crate::subject::parse_history_pairs(&inputs)
+            .into_iter()
+            .map(|(i, j, a, b)| Violation::new("C15:parse-result-depends-on-history", format!("parse of input {j} after input {i}: {a} vs alone {b}"), w.clone()))
+            .collect();
+    }
     let h: Vec<usize> = w["calls"].as_array().map(|a| a.iter().filter_map(|x| x.as_u64().map(|v| v as usize % 7)).collect()).unwrap_or_else(|| vec![0, 1, 2, 3, 4]);
     check_history(&h, &first, &mut acc);
     acc.violations.into_values().map(|(v, _)| v).collect()
